@@ -195,9 +195,10 @@ class Builder(object):
                 shape = tuple(int(q(v)) for v in tn_d['q'][0])
                 ex = qf(w['q'][0][0])
                 wt = qf(w['q'][1][0]) if w['cls'] == 'TWConst' else self.array(w, shape, 'float64')
-                return odl.uniform_discr_frompartition(part, dtype=np.dtype(DT[tn_d['s']]), exponent=ex, weighting=wt)
-            return odl.DiscretizedSpace(part, self.tensor_alt(tn_d))
-        if cls == 'PSpace':
+                return odl.uniform_discr_frompartition(part, dtype=np.dtype(DT[tn_d['s']]), exponent=ex, weighting=wt,
+                                                       **self.labels(d, len(shape)))
+            return odl.DiscretizedSpace(part, self.tensor_alt(tn_d), **self.labels(d, len(tn_d['q'][0])))
+        if cls == 'PSpace' and d.get('x') != 'field':
             w, comps = sub[0], sub[1:]
             spaces = [self.build(c, 3) for c in comps]
             ex = qf(w['q'][0][0])
@@ -264,6 +265,14 @@ class Builder(object):
             return odl.tensor_space(shape, dtype=dt, **{key: CALL[w['s']]})
         return odl.tensor_space(shape, dtype=dt, weighting=self.weighting(w, shape, wdt))
 
+    @staticmethod
+    def labels(d, ndim):
+        """Non-compared attribute x of a discretised space: axis_labels."""
+        x = d.get('x', '')
+        if x.startswith('labels:'):
+            return {'axis_labels': tuple('%s%d' % (x[7:], k) for k in range(ndim))}
+        return {}
+
     def discr(self, d, copy):
         part_d, tn_d = d['sub']
         if copy == 2 and d['s'] == 'factory':
@@ -279,15 +288,19 @@ class Builder(object):
             kw = {}
             if not (w['cls'] == 'TWConst' and q(w['q'][1][0]) == cellvol):
                 kw['weighting'] = qf(w['q'][1][0])
+            kw.update(self.labels(d, len(shape)))
             if len(shape) == 1:
                 return odl.uniform_discr(mn[0], mx[0], shape[0], dtype=DT[tn_d['s']], exponent=ex,
                                          nodes_on_bdry=[nob[0]] if nob[0][0] != nob[0][1] else nob[0][0], **kw)
             return odl.uniform_discr(mn, mx, shape, dtype=DT[tn_d['s']], exponent=ex, nodes_on_bdry=nob, **kw)
-        return odl.DiscretizedSpace(self.build(part_d, copy), self.tensor(tn_d, copy))
+        return odl.DiscretizedSpace(self.build(part_d, copy), self.tensor(tn_d, copy),
+                                    **self.labels(d, len(tn_d['q'][0])))
 
     def pspace(self, d, copy):
         w, comps = d['sub'][0], d['sub'][1:]
         spaces = [self.build(c, copy) for c in comps]
+        if d.get('x') == 'field':             # non-compared argument: the field given explicitly
+            return odl.ProductSpace(*spaces, weighting=self.weighting(w), field=spaces[0].field)
         ex = qf(w['q'][0][0])
         if copy == 2 and w['cls'].startswith('PW'):
             if w['cls'] == 'PWConst':
@@ -368,20 +381,72 @@ def safe_repr(o, n=160):
         return '<%s: repr raises %s>' % (type(o).__name__, type(e).__name__)
 
 
-def space_dtype(sp):
+def leaf_dtypes(sp):
     if isinstance(sp, odl.ProductSpace):
-        return space_dtype(sp[0])
-    return DTR.get(np.dtype(sp.dtype).name, np.dtype(sp.dtype).name)
+        out = []
+        for c in sp:
+            out += leaf_dtypes(c)
+        return out
+    return [DTR.get(np.dtype(sp.dtype).name, np.dtype(sp.dtype).name)]
+
+
+def space_dtype(sp):
+    """SetSem!DtypeOf: the common dtype of the leaves or 'mixed:<leaf dtypes>'."""
+    ds = leaf_dtypes(sp)
+    return ds[0] if all(t == ds[0] for t in ds) else 'mixed:' + ','.join(ds)
 
 
 def view(sp):
     """Real space -> [shape, dt, fld, w] (SetSem!View)."""
     fld = 'C' if isinstance(sp.field, ComplexNumbers) else 'R'
     return {'shape': [[int(s), 1] for s in space_shape(sp)], 'dt': space_dtype(sp), 'fld': fld,
-            'w': wview(sp.weighting)}
+            'w': wview(sp.weighting), 'nw': nested_w(sp)}
 
 
-NOVIEW = {'shape': [], 'dt': '', 'fld': '', 'w': {'kind': 'none', 'exp': [0, 1], 'c': [1, 1], 'arr': [], 'tag': ''}}
+def nested_w(sp):
+    """SetSem!NestedW: weightings of the nested product spaces, pre-order."""
+    out = []
+    if isinstance(sp, odl.ProductSpace):
+        for c in sp:
+            if isinstance(c, odl.ProductSpace):
+                out.append(wview(c.weighting))
+                out += nested_w(c)
+    return out
+
+
+def pair_failures(derived, direct):
+    """Everything that must hold between a derived object and the directly constructed equal one."""
+    bad = []
+    ab, ba = observe_eq(derived, direct), observe_eq(direct, derived)
+    if ab != 'T':
+        bad.append('derived-eq-direct')
+    if ba != 'T':
+        bad.append('direct-eq-derived')
+    ha, hb = observe_hash(derived), observe_hash(direct)
+    if ha[0] == hb[0] == 'ok':
+        if ha[1] != hb[1]:
+            bad.append('hash')
+        try:
+            if direct not in {derived}:
+                bad.append('set-membership')
+            if {derived: 1}.get(direct) != 1:
+                bad.append('dict-lookup')
+        except Exception:
+            bad.append('set-or-dict-raises')
+    if not hasattr(direct, 'zero'):
+        return bad
+    try:
+        if direct.zero() not in derived:
+            bad.append('element-of-direct-in-derived')
+        if derived.zero() not in direct:
+            bad.append('element-of-derived-in-direct')
+    except Exception:
+        bad.append('element-membership-raises')
+    return bad
+
+
+NOVIEW = {'shape': [], 'dt': '', 'fld': '', 'w': {'kind': 'none', 'exp': [0, 1], 'c': [1, 1], 'arr': [], 'tag': ''},
+          'nw': []}
 
 
 # ----------------------------------------------------------------------------- element values
